@@ -61,12 +61,17 @@ def h_spline(ctx):
     e, n = ctx.reals("e", nobs), ctx.reals("n", nobs)
     fe, fn = ctx.reals("fe", nf), ctx.reals("fn", nf)
     force = ctx.reals("f", nf)
-    mindist = ctx.real("mindist", 0, None)
     import warnings
 
     with warnings.catch_warnings():
         warnings.simplefilter("ignore")
-        sp = vd.Spline(mindist=mindist)
+        if cfg.get("default_mindist"):
+            # Spline(): the documented default means no offset at all (g(0) = 0 at coincident points)
+            mindist = 0
+            sp = vd.Spline()
+        else:
+            mindist = ctx.real("mindist", 0, None)
+            sp = vd.Spline(mindist=mindist)
     jac = sp.jacobian((e, n), (fe, fn))
     ctx.claim("jacobian has shape (n_obs, n_forces)", np.shape(jac) == (nobs, nf))
     for i in range(nobs):
@@ -262,8 +267,8 @@ HARNESSES = [
     Harness(
         "spline_jacobian_predict",
         h_spline,
-        lambda tier, seed: [{"nobs": 2, "nforce": 2}, {"nobs": 1, "nforce": 1, "shift": True, "fquery": True}] + ([{"nobs": 2, "nforce": 3}, {"nobs": 2, "nforce": 1, "shift": True}] if tier == "thorough" else []),
-        bounds="1-2 observation points x 1-3 force points, all coordinates, forces and mindist >= 0 symbolic; translation by a symbolic vector",
+        lambda tier, seed: [{"nobs": 2, "nforce": 2}, {"nobs": 1, "nforce": 1, "shift": True, "fquery": True}, {"nobs": 2, "nforce": 1, "default_mindist": True}, {"nobs": 1, "nforce": 2}] + ([{"nobs": 2, "nforce": 3}, {"nobs": 2, "nforce": 1, "shift": True}] if tier == "thorough" else []),
+        bounds="1-2 observation points x 1-3 force points (also n_obs != n_forces), all coordinates, forces and mindist >= 0 symbolic (or the constructor's default); translation by a symbolic vector",
         engine={"oneshot": True, "timeout_ms": 30000, "keyed_sqrt": True},
         timeout_s=600,
     ),
